@@ -66,6 +66,28 @@ class FakeProcess:
             raise HangDetected("Process.join() never returns: the writer waits on an empty queue that nobody will fill")
 
 
+class FakeQueue:
+    """Manager().Queue: FIFO; a bounded queue blocks the producer when full -- a put that never completes is a hang"""
+
+    def __init__(self, maxsize=0):
+        self.q = queue.Queue(maxsize)
+
+    def put(self, item, block=True, timeout=None):
+        try:
+            self.q.put(item, timeout=FakeProcess.TIMEOUT)
+        except queue.Full:
+            raise HangDetected("Queue.put() never returns: the queue is full and nobody drains it") from None
+
+    def get(self, block=True, timeout=None):
+        return self.q.get()
+
+    def empty(self):
+        return self.q.empty()
+
+    def qsize(self):
+        return self.q.qsize()
+
+
 class FakeManager:
     def __enter__(self):
         return self
@@ -73,8 +95,8 @@ class FakeManager:
     def __exit__(self, *a):
         return False
 
-    def Queue(self):
-        return queue.Queue()
+    def Queue(self, maxsize=0):
+        return FakeQueue(maxsize)
 
 
 class FakePool:
@@ -136,8 +158,9 @@ CENTRES = np.array([[0.05, 0.0], [0.15, 0.0], [2.5, 0.0]])
 def make_input(fault, pos):
     """12 records in 3 chunks of 4; the fault is placed in chunk `pos`"""
     ra = np.array([0.04 + 0.001 * i if i % 2 == 0 else 0.16 - 0.001 * i for i in range(N)])
-    if fault != "empty_centre":
-        ra[1::4] = 2.5  # every centre attracts objects
+    ra[1::4] = 2.5  # every centre attracts objects ...
+    if fault == "empty_centre":  # ... except the one at position `pos` of the centre list
+        ra[np.argmin(np.abs(ra[:, None] - CENTRES[None, :, 0]), axis=1) == pos] = CENTRES[(pos + 1) % 3, 0] + 0.002
     cols = {"ra": ra, "dec": np.zeros(N), "w": 1.0 + np.arange(N), "p": (np.arange(N) % 3).astype(np.int64)}
     row = pos * CHUNK + 1
     kw = dict(ra_name="ra", dec_name="dec", weight_name="w", degrees=False, chunksize=CHUNK)
@@ -188,14 +211,14 @@ class Faults(Harness):
     def __init__(self, wrong=None):
         self.wrong = wrong
         self.name = "faults" + (".twin-" + wrong if wrong else "")
-        self.bounds = ("12 records in 3 chunks; fault kind (%d) x chunk position (first/middle/last) x workers (1 = sequential, 2, 3) x "
+        self.bounds = ("12 records in 3 chunks; fault kind (%d) x chunk position / position of the empty centre (first/middle/last) x workers (1 = sequential, 2, 3) x "
                        "order in which pool workers deliver their part -- every combination chosen by the engine") % len(FAULTS)
         self.must_fail = wrong is not None
 
     def make_inputs(self, eng):
         d = {"fault": eng.choose(len(FAULTS), "fault"), "workers": 1 + eng.choose(3, "workers")}
         f = FAULTS[d["fault"]]
-        d["pos"] = eng.choose(3, "chunk_position") if f in ("nonfinite", "patch_id_out_of_range", "patch_id_wraps") else 0
+        d["pos"] = eng.choose(3, "chunk_position") if f in ("nonfinite", "patch_id_out_of_range", "patch_id_wraps", "empty_centre") else 0
         d["order"] = eng.choose(2, "pool_delivery_order") if d["workers"] > 1 else 0
         return d
 
